@@ -80,7 +80,7 @@ class Mir:
                         cur.ret = m.group(6)
                         self.consts[name] = cur
                 else:
-                    m = re.match(r'^const (.+?): (.*) = const (.*);$', line)
+                    m = re.match(r'^const ((?:<[^>]*>|::|[^<:])+?): (.*) = const (.*);$', line)
                     if m:
                         f = Fn(line); f.name = m.group(1); f.ret = m.group(2); f.simple = m.group(3)
                         self.consts[f.name] = f
